@@ -213,29 +213,21 @@ theorem recOf_setArchqual (r : RNode) (q : Str) :
 
 /-! ### `set_version(Some(..))` -/
 
-theorem splitOnce_spec {c : Char} {s a b : Str} (h : splitOnce c s = some (a, b)) : s = a ++ c :: b := by
-  induction s generalizing a with
-  | nil => simp [splitOnce] at h
-  | cons x xs ih =>
-    simp only [splitOnce] at h
-    split at h
-    · rename_i hx; simp at h; obtain ⟨rfl, rfl⟩ := h; simp [hx]
-    · split at h
-      · rename_i a' b' hs
-        simp at h; obtain ⟨rfl, rfl⟩ := h
-        simp [ih hs]
-      · simp at h
-
 /-- the version tokens are tokens, and their IDENT / COLON texts spell the version -/
 theorem versionTokens_spec (v : Version) :
     (∀ k, cn k (versionTokens v) = []) ∧ ((versionTokens v).filterMap vtF).flatten = v.display := by
   unfold versionTokens
   split
-  · rename_i epoch rest hs
-    split
-    · refine ⟨fun k => by simp [cn, Node.isNode, T], ?_⟩
-      simp [vtF, T, splitOnce_spec hs]
-    · exact ⟨fun k => by simp [cn, Node.isNode], by simp [vtF]⟩
+  · have h := splitOn_flatten ':' v.display
+    cases hs : Text.splitOn ':' v.display with
+    | nil => rw [hs] at h; simp at h
+    | cons p ps =>
+      rw [hs] at h
+      rw [sepBy_colon]
+      refine ⟨fun k => cn_tks k _, ?_⟩
+      simp only [tks_cons, List.filterMap_cons, tk, vtF, true_or, ↓reduceIte, List.flatten_cons,
+        vtF_colonTail]
+      simpa using h
   · exact ⟨fun k => by simp [cn, Node.isNode], by simp [vtF]⟩
 
 theorem constraintToks_cn (c : VC) (k : Kind) : cn k (constraintToks c) = [] := by
